@@ -585,4 +585,10 @@ example : (run init [.write peerA [1] [.code 438, .ok] [.ok], .write peerA [2] [
      [.chanData 0x4000 [2], .wrote 1]] := by decide
 example : (step init (.write peerA [1] [.code 403] [])).2 = [.createPerm [peerA], .writeErr "turn403"] := by decide
 
+/-- **only the TURN server relays**: a Data indication or ChannelData whose source is not the TURN server is refused and
+    changes nothing — nothing a stranger sends to the client's socket is ever returned by `ReadFrom` (finding F33) -/
+theorem stranger_changes_nothing (s : State) :
+    (step s (.inbound .relayedFromOther)).1 = s ∧ (step s (.inbound .relayedFromOther)).2 = [.inboundErr "stranger"] := by
+  simp [step, handleInbound]
+
 end Turn.C13
